@@ -170,13 +170,13 @@ func emit(event, p string) {
 			}
 		}
 		if simrt.Decide("notify.delay") {
-			d := time.Duration(1+simrt.Active().WorldRand().IntN(2000)) * time.Millisecond
+			d := time.Duration(1+simrt.Active().WorldRand().IntN(60)) * time.Millisecond
 			simrt.AtSched(d, deliver)
 		} else {
 			deliver()
 		}
 		if simrt.Decide("notify.dup") {
-			simrt.AtSched(time.Duration(1+simrt.Active().WorldRand().IntN(500))*time.Millisecond, deliver)
+			simrt.AtSched(time.Duration(1+simrt.Active().WorldRand().IntN(60))*time.Millisecond, deliver)
 		}
 	}
 }
